@@ -44,7 +44,7 @@ SEEDED = [
 ]
 
 
-def lifecycle_cfg(ctx, overrides):
+def lifecycle_cfg(ctx, overrides, sim=False):
     """LifecycleTotal's configuration is derived from spec/Lifecycle.cfg at run time: Lifecycle.tla belongs to C06 and
     gains constants; every constant keeps C06's value unless overridden here."""
     consts = []
@@ -63,9 +63,12 @@ def lifecycle_cfg(ctx, overrides):
     lines = ["SPECIFICATION TSpec", "CONSTANTS"]
     for name, t in consts:
         lines.append("  " + ("%s = %s" % (name, overrides[name]) if name in overrides else t))
-    lines += ["INVARIANTS", "  Bounded", "  RestartsCounted", "  ProgressBound", "  NeverStuck", "  EmitInv", "VIEW View",
-              "CHECK_DEADLOCK FALSE"]
-    path = os.path.join(ctx.work, "LifecycleTotal.cfg")
+    if sim:
+        lines += ["INVARIANTS", "  Bounded", "  RestartsCounted", "  ProgressBound", "  EmitEndInv", "CHECK_DEADLOCK FALSE"]
+    else:
+        lines += ["INVARIANTS", "  Bounded", "  RestartsCounted", "  ProgressBound", "  NeverStuck", "  EmitInv", "VIEW View",
+                  "CHECK_DEADLOCK FALSE"]
+    path = os.path.join(ctx.work, "LifecycleTotalSim.cfg" if sim else "LifecycleTotal.cfg")
     with open(path, "w") as f:
         f.write("\n".join(lines) + "\n")
     return path
@@ -146,6 +149,11 @@ def run(ctx):
     for k in range(2):
         jobs.append(("walk%d" % k, dict(module="EvalGen", cfg="EvalSim.cfg", workers=1, simulate=(150 if quick else 4000), depth=90,
                                         timeout=2400, seed=ctx.seed * 1000 + 500 + k, tag="walk")))
+    # seeded walks of the hostile lifecycle machine (longer histories than the k-switch cover reaches)
+    simcfg = lifecycle_cfg(ctx, {"Urls": '{"a", "b"}', "JailChoices": "{FALSE}", "MaxRestarts": "3", "MaxReq": "3", "KCover": "0",
+                                 "Statuses": "{200, 500}"}, sim=True)
+    jobs.append(("lifewalk", dict(module="LifecycleTotal", cfg="LifecycleTotalSim.cfg", workers=1, simulate=(300 if quick else 6000), depth=120,
+                                  timeout=1500, extra_files=[simcfg], tag="lifecycle-walk")))
     res = tlc_jobs(ctx, jobs)
     for name, r in res.items():
         if r.violated:
@@ -161,9 +169,14 @@ def run(ctx):
     for name in ("assign", "builtin", "calls", "include", "request"):
         cases += load_cases([res[name].beh_path], name[0])
     # lifecycle behaviours are wrapped into the case format
-    with open(res["lifecycle"].beh_path) as f:
+    import itertools
+    with open(res["lifecycle"].beh_path) as f1, open(res["lifewalk"].beh_path) as f2:
         n = 0
-        for line in f:
+        seen = set()
+        for line in itertools.chain(f1, f2):
+            if line in seen:
+                continue
+            seen.add(line)
             b = json.loads(line)
             n += 1
             cases.append({"id": "l%d" % n, "case": {"k": "lifecycle", "reqs": b["reqs"]}, "allowed": ["value", "error"],
